@@ -151,6 +151,9 @@ def py_fn(t):
         return _raiseif
     if k == 'istrue':
         return lambda x: x is True
+    if k == 'noneif':
+        p = py_fn(t[1])
+        return lambda x: None if p(x) else x
     if k == 'torange':       # Python only (no Coq model): an iterable that is neither list nor tuple
         return lambda x: range(abs(x) % 4)
     if k == 'todeque':
@@ -188,6 +191,8 @@ def coq_fn(t):
         return '(FClip %s %s)' % (coq_val(t[1]), coq_val(t[2]))
     if k == 'fillnone':
         return '(FFillNone %s)' % coq_val(t[1])
+    if k == 'noneif':
+        return '(FNoneIf %s)' % coq_fn(t[1])
     if k == 'star':
         return '(FStar %s)' % coq_fn2(t[1])
     raise ValueError(t)
